@@ -56,6 +56,8 @@ def run(ctx):
     import c03
     c03.rule_flag(ctx, F)
     rule_seqeq(ctx, F)
+    rule_secfwd(ctx, F)
+    rule_optiter(ctx, F)
 
 
 # ---------------------------------------------------------------------------
@@ -787,3 +789,56 @@ def rule_seqeq(ctx, F):
     ctx.ob(R, "base::message_builder::StaticCompressor", "compares names with a length-aware sequence equality", anchored >= 1,
            "StaticCompressor::get no longer compares the name with the remembered one through Iterator::eq")
     ctx.call_sites += n
+
+
+def rule_secfwd(ctx, F):
+    """The generic face of a record section (`impl RecordSectionBuilder for XBuilder`) adds to *that* section: its
+    push forwards to the inherent push of the same builder type, so the record is counted in that section's header
+    count -- not to the builder it wraps (an authority record counted as an answer makes the message unparsable after a
+    rewind and puts records into the wrong section for every generic caller)."""
+    R = "C02.secfwd"
+    ctx.floor(R, 3)
+    n = 0
+    for p, b in sorted(F.bodies.items()):
+        m = re.match(r"^<base::message_builder::(\w+)<Target> as base::message_builder::RecordSectionBuilder<Target>>::push$", p)
+        if not m:
+            continue
+        n += 1
+        own = m.group(1)
+        pushes = [(t["fn"] or "") for _, t in b.calls() if re.search(r"Builder::<Target>::push$", t["fn"] or "")]
+        ok = len(pushes) == 1 and re.search(r"base::message_builder::%s::<Target>::push$" % own, pushes[0]) is not None
+        ctx.ob(R, b, "%s's trait push is its own push" % own, ok,
+               "<%s as RecordSectionBuilder>::push forwards to %s: records pushed through the trait are counted in another "
+               "section's header count" % (own, [x.split("message_builder::")[-1] for x in pushes] or "nothing"))
+    ctx.ob(R, "base::message_builder", "RecordSectionBuilder impls found", n >= 3, "only %d found" % n, nontrivial=False)
+
+
+def rule_optiter(ctx, F):
+    """What was pushed into an OPT record comes out again, in order: the option iterator goes on as long as *any*
+    octet is left (an option without data is four octets of header) and reports what does not parse; a threshold
+    above zero silently drops a trailing option."""
+    R = "C02.optiter"
+    ctx.floor(R, 1)
+    b = F.one_body(r"^<base::opt::OptIter<'a, Octs, Data> as core::iter::Iterator>::next$")
+    if not ctx.anchor(R, "<OptIter as Iterator>::next", b):
+        return
+    n = 0
+    for bi in sorted(b.reachable_blocks()):
+        t = b.blocks[bi]["t"]
+        if t["k"] != "switch" or t["ty"] != "bool":
+            continue
+        d = deep_strip(b.term_of_operand(t["d"]))
+        if d[0] != "bin" or d[1] not in ("Gt", "Ge", "Ne", "Lt", "Le", "Eq"):
+            continue
+        l, r = deep_strip(d[2]), deep_strip(d[3])
+        if not ((l[0] == "call" and (l[1] or "").endswith("::remaining")) or (r[0] == "call" and (r[1] or "").endswith("::remaining"))):
+            continue
+        n += 1
+        k = const_value(r) if l[0] == "call" else const_value(l)
+        op = d[1] if l[0] == "call" else {"Gt": "Lt", "Lt": "Gt", "Ge": "Le", "Le": "Ge"}.get(d[1], d[1])
+        ok = (op in ("Gt", "Ne", "Eq", "Le") and k == 0) or (op in ("Ge", "Lt") and k == 1)
+        ctx.ob(R, b, "the iterator continues while any octet remains", ok,
+               "OptIter::next compares the remaining octets with %s %s: options in the last %s octet(s) of the OPT record are never "
+               "yielded -- an option without data (NSID request, padding of length 0) at the end disappears on the way through a "
+               "message" % (op, k, k), b.where(bi))
+    ctx.ob(R, b, "loop condition found", n >= 1, "no comparison of Parser::remaining found in OptIter::next", nontrivial=False)
